@@ -1,7 +1,8 @@
-(** C14 — the trace theorem.  The interpreter's control flow depends on a fire function only
-    through which firings raise ([exec_strip]); under the property's injection alphabet a fire
-    function is, at the firing sites of the program, one of 81 tables ([quiet_table]); the sweep over all tables, all admissible
-    scenarios and both drivers is decided by computation on the GENERATED pipeline. *)
+(** C14 — the trace theorem.  Every run of the interpreter, for every fire function in the
+    property's alphabet and every admissible scenario, is — up to which listeners were called —
+    one of the paths the exploration of Sweep.v enumerates ([exec_in]); the judgement does not
+    look at which listeners were called ([verdict_strip]); the exploration of the GENERATED
+    pipeline is decided by computation ([sweep_paths_true]). *)
 From Coq Require Import ZArith List Bool Lia.
 From SpyneV Require Import C14.Model C14.Spec C14.Drivers C14.Sweep C14.OSetProofs.
 Import ListNotations.
@@ -9,74 +10,6 @@ Open Scope Z_scope.
 
 Definition strip (i : fitem) : fitem :=
   match i with FFire t e d _ r => FFire t e d [] r | FFunc => FFunc end.
-
-Definition sim (x y : list fitem * st * signal) : Prop :=
-  map strip (fst (fst x)) = map strip (fst (fst y)) /\ snd (fst x) = snd (fst y) /\ snd x = snd y.
-
-Section Strip.
-  Variables f g : target -> ev -> bool -> list lid * option exk.
-  Variable sc : scen.
-
-  Lemma do_fire_sim : forall t e s, (forall d, snd (f t e d) = snd (g t e d)) ->
-    sim (do_fire f t e s) (do_fire g t e s).
-  Proof.
-    intros t e s same; unfold do_fire, sim.
-    specialize (same (negb (is_none (s_desc s)))).
-    destruct (f t e _) as [c1 r1], (g t e _) as [c2 r2]; simpl in *; subst; auto.
-  Qed.
-
-  (** the two runs agree as soon as the fire functions raise alike at the sites of the program *)
-  Lemma exec_strip : forall p,
-    (forall t e d, In (t, e) (sites p) -> snd (f t e d) = snd (g t e d)) ->
-    forall s cur, sim (exec f sc p s cur) (exec g sc p s cur).
-  Proof.
-    induction p; intros same s cur; simpl; try (unfold sim; simpl; auto; fail).
-    - (* Seq *)
-      assert (S1 : forall t e d, In (t, e) (sites p1) -> snd (f t e d) = snd (g t e d))
-        by (intros; apply same; simpl; apply in_or_app; auto).
-      assert (S2 : forall t e d, In (t, e) (sites p2) -> snd (f t e d) = snd (g t e d))
-        by (intros; apply same; simpl; apply in_or_app; auto).
-      specialize (IHp1 S1 s cur).
-      destruct (exec f sc p1 s cur) as [[t1 s1] g1], (exec g sc p1 s cur) as [[t2 s2] g2].
-      destruct IHp1 as (Ht & Hs & Hg); simpl in *; subst.
-      destruct g2; try (unfold sim; simpl; auto; fail).
-      specialize (IHp2 S2 s2 cur).
-      destruct (exec f sc p2 s2 cur) as [[t1' s1'] g1'], (exec g sc p2 s2 cur) as [[t2' s2'] g2'].
-      destruct IHp2 as (Ht' & Hs' & Hg'); simpl in *; subst.
-      unfold sim; simpl; rewrite !map_app; repeat split; congruence.
-    - apply do_fire_sim; intro d; apply same; simpl; auto.
-    - apply do_fire_sim; intro d; apply same; simpl; auto.
-    - (* If *)
-      assert (S1 : forall t e d, In (t, e) (sites p1) -> snd (f t e d) = snd (g t e d))
-        by (intros; apply same; simpl; apply in_or_app; auto).
-      assert (S2 : forall t e d, In (t, e) (sites p2) -> snd (f t e d) = snd (g t e d))
-        by (intros; apply same; simpl; apply in_or_app; auto).
-      destruct (eval sc c s); auto.
-    - (* Try *)
-      assert (S1 : forall t e d, In (t, e) (sites p1) -> snd (f t e d) = snd (g t e d))
-        by (intros; apply same; simpl; apply in_or_app; auto).
-      assert (S2 : forall t e d, In (t, e) (sites p2) -> snd (f t e d) = snd (g t e d))
-        by (intros; apply same; simpl; apply in_or_app; auto).
-      specialize (IHp1 S1 s cur).
-      destruct (exec f sc p1 s cur) as [[t1 s1] g1], (exec g sc p1 s cur) as [[t2 s2] g2].
-      destruct IHp1 as (Ht & Hs & Hg); simpl in *; subst.
-      destruct g2; try (unfold sim; simpl; auto; fail).
-      specialize (IHp2 S2 s2 (Some k)).
-      destruct (exec f sc p2 s2 (Some k)) as [[t1' s1'] g1'], (exec g sc p2 s2 (Some k)) as [[t2' s2'] g2'].
-      destruct IHp2 as (Ht' & Hs' & Hg'); simpl in *; subst.
-      unfold sim; simpl; rewrite !map_app; repeat split; congruence.
-    - (* IfExc *)
-      assert (S1 : forall t e d, In (t, e) (sites p1) -> snd (f t e d) = snd (g t e d))
-        by (intros; apply same; simpl; apply in_or_app; auto).
-      assert (S2 : forall t e d, In (t, e) (sites p2) -> snd (f t e d) = snd (g t e d))
-        by (intros; apply same; simpl; apply in_or_app; auto).
-      destruct cur as [k|]; [destruct (isinst k c)|]; auto.
-    - (* Call *)
-      specialize (IHp same s None).
-      destruct (exec f sc p s None) as [[t1 s1] g1], (exec g sc p s None) as [[t2 s2] g2].
-      destruct IHp as (Ht & Hs & Hg); simpl in *; subst. unfold sim; simpl; auto.
-  Qed.
-End Strip.
 
 Lemma mtoks_strip : forall t, mtoks (map strip t) = mtoks t.
 Proof.
@@ -116,9 +49,9 @@ Qed.
 Definition strip_invariant (J : list fitem * result * bool -> bool) : Prop :=
   forall t1 t2 res u, map strip t1 = map strip t2 -> J (t1, res, u) = J (t2, res, u).
 
-Lemma verdict_strip : forall drv sc, strip_invariant (verdict drv sc).
+Lemma verdict_fn_strip : forall drv fn, strip_invariant (verdict_fn drv fn).
 Proof.
-  intros drv sc t1 t2 res u H. unfold verdict, wsgi_ok.
+  intros drv fn t1 t2 res u H. unfold verdict_fn, wsgi_ok.
   rewrite <- (mtoks_strip t1), <- (mtoks_strip t2), <- (ftoks_strip t1), <- (ftoks_strip t2),
           <- (frame_ok_strip t1), <- (frame_ok_strip t2), H.
   reflexivity.
@@ -129,42 +62,11 @@ Proof.
   rewrite <- (mtoks_strip t1), <- (mtoks_strip t2), H. reflexivity.
 Qed.
 
-Lemma run_strip : forall J f g sc p, strip_invariant J ->
-  (forall t e d, In (t, e) (sites p) -> snd (f t e d) = snd (g t e d)) ->
-  J (run f sc p) = J (run g sc p).
-Proof.
-  intros J f g sc p HJ H. unfold run.
-  pose proof (exec_strip f g sc p H st0 None) as S.
-  destruct (exec f sc p st0 None) as [[t1 s1] g1], (exec g sc p st0 None) as [[t2 s2] g2].
-  destruct S as (Ht & Hs & Hg); simpl in *; subst. apply HJ; assumption.
-Qed.
-
-(** under [quiet], at the sites of a program that only raises through ctx.fire_event, a fire
-    function raises exactly as one of the tables does *)
-Lemma quiet_table : forall fire p, quiet fire -> sites_ok p = true ->
-  forall t e d, In (t, e) (sites p) -> snd (fire t e d) =
-    snd (tabfire (snd (fire TCtx Ecall true)) (snd (fire TCtx Ecall false))
-                 (snd (fire TCtx Eret_obj true)) (snd (fire TCtx Eret_obj false)) t e d).
-Proof.
-  intros fire p Hq Hs t e d Hin.
-  unfold sites_ok in Hs. rewrite forallb_forall in Hs. specialize (Hs _ Hin). simpl in Hs.
-  pose proof (Hq t e d) as Q.
-  destruct t, e, d; simpl in *; try reflexivity; try discriminate Hs;
-    (destruct (snd (fire _ _ _)) as [k|]; [|reflexivity]);
-    destruct (Q k eq_refl) as ([He|He] & _); discriminate.
-Qed.
 Lemma quiet_raise : forall fire, quiet fire -> forall t e d, In (snd (fire t e d)) all_raise.
 Proof.
   intros fire Hq t e d. specialize (Hq t e d). destruct (snd (fire t e d)) as [k|]; simpl; auto.
   destruct (Hq k eq_refl) as (_ & [->| ->]); auto.
 Qed.
-
-Lemma drivers_sites_ok : forall drv, sites_ok (driver_prog drv) = true.
-Proof. intros []; vm_compute; reflexivity. Qed.
-
-Lemma sweep_true : sweepF chk = true.
-Proof. vm_cast_no_check (eq_refl true). Qed.
-
 Lemma parse_adm_in : forall x, parse_adm x = true -> In x all_parse.
 Proof. intros [[]|]; simpl; intro; auto; discriminate. Qed.
 Lemma raise_adm_in : forall x, raise_adm x = true -> In x all_raise.
@@ -176,49 +78,99 @@ Proof. intros []; simpl; auto. Qed.
 Lemma all_drv_in : forall x, In x all_drv.
 Proof. intros []; simpl; auto. Qed.
 
-(** the nested sweep covers every tuple drawn from the enumerations (F abstract) *)
-Lemma sweepF_sound : forall F, sweepF F = true ->
-  forall drv rc cr de di ds fn se rd af dc a b c d,
-  In drv all_drv -> In rc all_parse -> In cr all_parse -> In de all_parse -> In di all_parse -> In ds all_parse ->
-  In fn all_raise -> In se all_raise -> In rd all_oexk -> In af all_bool -> In dc all_bool ->
-  In a all_raise -> In b all_raise -> In c all_raise -> In d all_raise ->
-  F drv rc cr de di ds fn se rd af dc a b c d = true.
+(* ------------------------------------------------------------------ every run is an explored path *)
+Definition strip3 (x : list fitem * st * signal) : outcome := let '(t, s, g) := x in (map strip t, s, g).
+Definition strip_run (x : list fitem * result * bool) := let '(t, r, u) := x in (map strip t, r, u).
+
+Definition parse_ok (sc : scen) : Prop :=
+  parse_adm (sc_recon sc) = true /\ parse_adm (sc_create sc) = true /\ parse_adm (sc_decomp sc) = true
+  /\ parse_adm (sc_dispatch sc) = true /\ parse_adm (sc_deser sc) = true.
+
+Section Sound.
+  Variable fire : target -> ev -> bool -> list lid * option exk.
+  Variable sc : scen.
+  Hypothesis Hq : quiet fire.
+  Hypothesis Hp : parse_ok sc.
+
+  Lemma inj_in : forall g, In (sc_inj sc g) (ans_inj (sc_fn sc) (sc_ser sc) g).
+  Proof.
+    destruct Hp as (H0 & H1 & H2 & H3 & H4).
+    intros []; cbn [sc_inj ans_inj]; try (apply parse_adm_in; assumption);
+      try (left; reflexivity); apply all_oexk_in.
+  Qed.
+  Lemma fire_in : forall t e d, In (snd (fire t e d)) (ans_fire e).
+  Proof.
+    intros t e d. unfold ans_fire. destruct (ev_eqb e Ecall || ev_eqb e Eret_obj) eqn:E.
+    - apply quiet_raise; assumption.
+    - destruct (snd (fire t e d)) as [k|] eqn:F; [|simpl; auto].
+      destruct (Hq t e d k F) as ([->| ->] & _); simpl in E; discriminate.
+  Qed.
+  Lemma eval_evalL : forall c s, eval sc c s = evalL (sc_flag sc) c s.
+  Proof. intros [] s; reflexivity. Qed.
+
+  Notation EL := (execL (sc_fn sc) (sc_ser sc) (sc_flag sc)).
+
+  Lemma do_fire_in : forall t e s, In (strip3 (do_fire fire t e s)) (fireL t e s).
+  Proof.
+    intros t e s. unfold do_fire, fireL.
+    pose proof (fire_in t e (negb (is_none (s_desc s)))) as I.
+    destruct (fire t e (negb (is_none (s_desc s)))) as [c r]; simpl in *.
+    apply in_map_iff. exists r; split; [destruct r; reflexivity | assumption].
+  Qed.
+
+  Lemma exec_in : forall p s cur, In (strip3 (exec fire sc p s cur)) (EL p s cur).
+  Proof.
+    induction p; intros s cur; simpl; try (left; reflexivity).
+    - (* Seq *)
+      specialize (IHp1 s cur). destruct (exec fire sc p1 s cur) as [[t1 s1] g1]. simpl in IHp1.
+      unfold thenL. apply in_flat_map. exists (map strip t1, s1, g1). split; [assumption|].
+      destruct g1; simpl; auto.
+      specialize (IHp2 s1 cur). destruct (exec fire sc p2 s1 cur) as [[t2 s2] g2]. simpl in *.
+      apply in_map_iff. exists (map strip t2, s2, g2). split; [rewrite map_app; reflexivity | assumption].
+    - apply do_fire_in.
+    - apply do_fire_in.
+    - (* Inject *)
+      apply in_map_iff. exists (sc_inj sc g). split; [destruct (sc_inj sc g); reflexivity | apply inj_in].
+    - (* SetExc *) destruct cur; simpl; auto.
+    - (* If *) rewrite eval_evalL. destruct (evalL (sc_flag sc) c s); auto.
+    - (* Try *)
+      specialize (IHp1 s cur). destruct (exec fire sc p1 s cur) as [[t1 s1] g1]. simpl in IHp1.
+      unfold catchL. apply in_flat_map. exists (map strip t1, s1, g1). split; [assumption|].
+      destruct g1; simpl; auto.
+      specialize (IHp2 s1 (Some k)). destruct (exec fire sc p2 s1 (Some k)) as [[t2 s2] g2]. simpl in *.
+      apply in_map_iff. exists (map strip t2, s2, g2). split; [rewrite map_app; reflexivity | assumption].
+    - (* IfExc *) destruct cur as [k|]; [destruct (isinst k c)|]; auto.
+    - (* Call *)
+      specialize (IHp s None). destruct (exec fire sc p s None) as [[t1 s1] g1]. simpl in *.
+      apply in_map_iff. exists (map strip t1, s1, g1). split; [reflexivity | assumption].
+  Qed.
+
+  Lemma run_in : forall p, In (strip_run (run fire sc p)) (runL (sc_fn sc) (sc_ser sc) (sc_flag sc) p).
+  Proof.
+    intro p. unfold run, runL. pose proof (exec_in p st0 None) as I.
+    destruct (exec fire sc p st0 None) as [[t s] g]. simpl in I.
+    apply in_map_iff. exists (map strip t, s, g). split; [reflexivity | assumption].
+  Qed.
+End Sound.
+
+Lemma strip_run_strip : forall J x, strip_invariant J -> J x = J (strip_run x).
 Proof.
-  intros F S drv rc cr de di ds fn se rd af dc a b c d I0 Irc I1 I2 I3 I4 I5 I6 I7 I8 I9 Ia Ib Ic Id.
-  unfold sweepF in S.
-  rewrite forallb_forall in S; specialize (S _ I0).
-  rewrite forallb_forall in S; specialize (S _ Irc).
-  rewrite forallb_forall in S; specialize (S _ I1).
-  rewrite forallb_forall in S; specialize (S _ I2).
-  rewrite forallb_forall in S; specialize (S _ I3).
-  rewrite forallb_forall in S; specialize (S _ I4).
-  rewrite forallb_forall in S; specialize (S _ I5).
-  rewrite forallb_forall in S; specialize (S _ I6).
-  rewrite forallb_forall in S; specialize (S _ I7).
-  rewrite forallb_forall in S; specialize (S _ I8).
-  rewrite forallb_forall in S; specialize (S _ I9).
-  rewrite forallb_forall in S; specialize (S _ Ia).
-  rewrite forallb_forall in S; specialize (S _ Ib).
-  rewrite forallb_forall in S; specialize (S _ Ic).
-  rewrite forallb_forall in S; specialize (S _ Id).
-  exact S.
+  intros J [[t r] u] HJ. simpl. apply HJ. rewrite map_map. apply map_ext_in.
+  intros [? ? ? ? ?|] _; reflexivity.
 Qed.
 
-Lemma sweep_sound : forall drv sc a b c d,
-  scen_adm (is_wsgi drv) sc = true ->
-  In a all_raise -> In b all_raise -> In c all_raise -> In d all_raise ->
-  check_one drv sc a b c d = true.
+Lemma sweep_paths_true : sweep_paths = true.
+Proof. vm_compute. reflexivity. Qed.
+Lemma sweep_paths_sb_true : sweep_paths_sb = true.
+Proof. vm_compute. reflexivity. Qed.
+
+Lemma scen_adm_parts : forall w sc, scen_adm w sc = true ->
+  parse_ok sc /\ In (sc_fn sc) all_raise /\ In (sc_ser sc) all_raise
+  /\ (w || is_noneb (sc_ser sc)) = true /\ sc_opaque sc = false.
 Proof.
-  intros drv sc a b c d Hadm Ha Hb Hc Hd.
-  destruct sc as [rc cr de di ds fn se rd af dc op].
-  assert (Hadm' := Hadm). unfold scen_adm in Hadm'.
-  cbn [sc_recon sc_create sc_decomp sc_dispatch sc_deser sc_fn sc_ser sc_opaque] in Hadm'.
-  repeat rewrite andb_true_iff in Hadm'.
-  destruct Hadm' as ((((((((H0 & H1) & H2) & H3) & H4) & H5) & H6) & H7) & H8).
-  apply negb_true_iff in H8; subst op.
-  change (chk drv rc cr de di ds fn se rd af dc a b c d = true).
-  apply (sweepF_sound chk sweep_true);
-    auto using all_drv_in, parse_adm_in, raise_adm_in, all_oexk_in, all_bool_in.
+  intros w sc H. unfold scen_adm in H. repeat rewrite andb_true_iff in H.
+  destruct H as ((((((((H0 & H1) & H2) & H3) & H4) & H5) & H6) & H7) & H8).
+  apply negb_true_iff in H8. unfold parse_ok. auto 12 using raise_adm_in.
 Qed.
 
 (** TRACE THEOREM: for both drivers, every admissible scenario and every fire function in
@@ -229,12 +181,22 @@ Theorem trace_ok_fire : forall drv sc fire,
   verdict drv sc (run fire sc (driver_prog drv)) = true.
 Proof.
   intros drv sc fire Hadm Hq.
-  rewrite (run_strip (verdict drv sc) fire _ sc (driver_prog drv) (verdict_strip drv sc)
-             (quiet_table fire _ Hq (drivers_sites_ok drv))).
-  pose proof (sweep_sound drv sc _ _ _ _ Hadm
-                (quiet_raise fire Hq TCtx Ecall true) (quiet_raise fire Hq TCtx Ecall false)
-                (quiet_raise fire Hq TCtx Eret_obj true) (quiet_raise fire Hq TCtx Eret_obj false)) as C.
-  unfold check_one in C. rewrite Hadm in C. exact C.
+  destruct (scen_adm_parts _ _ Hadm) as (Hp & Ifn & Ise & Hw & Hop).
+  pose proof (run_in fire sc Hq Hp (driver_prog drv)) as I.
+  unfold verdict. rewrite (strip_run_strip _ _ (verdict_fn_strip drv (sc_fn sc))).
+  pose proof sweep_paths_true as S. unfold sweep_paths in S.
+  rewrite forallb_forall in S; specialize (S _ (all_drv_in drv)).
+  rewrite forallb_forall in S; specialize (S _ Ifn).
+  rewrite forallb_forall in S; specialize (S _ Ise).
+  rewrite forallb_forall in S; specialize (S _ (all_bool_in (sc_after_on_fault sc))).
+  rewrite forallb_forall in S; specialize (S _ (all_bool_in (sc_doc_early sc))).
+  rewrite Hw in S. rewrite forallb_forall in S. apply S.
+  clear S. destruct sc as [rc cr de di ds fn se rd af dc op].
+  cbn [sc_opaque sc_fn sc_ser sc_after_on_fault sc_doc_early] in *. subst op.
+  change (sc_flag {| sc_recon := rc; sc_create := cr; sc_decomp := de; sc_dispatch := di; sc_deser := ds;
+                     sc_fn := fn; sc_ser := se; sc_redirect := rd; sc_after_on_fault := af;
+                     sc_doc_early := dc; sc_opaque := false |}) with (flags_fn af dc) in I.
+  exact I.
 Qed.
 
 (* ------------------------------------------------------------------ from listener behaviours *)
@@ -280,39 +242,31 @@ Theorem trace_ok : forall drv sc parts w dms b,
 Proof. intros; apply trace_ok_fire; [assumption | apply quiet_world; assumption]. Qed.
 
 (* ------------------------------------------------------------------ ServerBase, unserialisable return value *)
-Lemma sweep_sb_true : sweepF chk_sb = true.
-Proof. vm_cast_no_check (eq_refl true). Qed.
-
-Lemma scen_adm_true_parts : forall sc, scen_adm true sc = true ->
-  In (sc_recon sc) all_parse /\ In (sc_create sc) all_parse /\ In (sc_decomp sc) all_parse /\ In (sc_dispatch sc) all_parse
-  /\ In (sc_deser sc) all_parse /\ In (sc_fn sc) all_raise /\ In (sc_ser sc) all_raise /\ sc_opaque sc = false.
-Proof.
-  intros sc H. unfold scen_adm in H. repeat rewrite andb_true_iff in H.
-  destruct H as ((((((((H0 & H1) & H2) & H3) & H4) & H5) & H6) & H7) & H8).
-  apply negb_true_iff in H8.
-  auto 12 using parse_adm_in, raise_adm_in.
-Qed.
-
 Theorem sb_unserialisable_fire : forall sc fire k,
   scen_adm true sc = true -> quiet fire -> sc_ser sc = Some k ->
   verdict DServerBase sc (run fire sc (driver_prog DServerBase)) = true
   \/ escape_shape k (run fire sc (driver_prog DServerBase)) = true.
 Proof.
   intros sc fire k Hadm Hq Hk.
-  pose proof (quiet_table fire _ Hq (drivers_sites_ok DServerBase)) as T.
-  rewrite (run_strip (verdict DServerBase sc) fire _ sc _ (verdict_strip _ sc) T).
-  rewrite (run_strip (escape_shape k) fire _ sc _ (escape_shape_strip k) T).
-  destruct (scen_adm_true_parts sc Hadm) as (I0 & I1 & I2 & I3 & I4 & I5 & I6 & Hop).
-  destruct sc as [rc cr de di ds fn se rd af dc op].
-  cbn [sc_recon sc_create sc_decomp sc_dispatch sc_deser sc_fn sc_ser sc_opaque] in *. subst op se.
-  pose proof (sweepF_sound chk_sb sweep_sb_true DServerBase rc cr de di ds fn (Some k) rd af dc
-                (snd (fire TCtx Ecall true)) (snd (fire TCtx Ecall false))
-                (snd (fire TCtx Eret_obj true)) (snd (fire TCtx Eret_obj false))
-                (all_drv_in _) I0 I1 I2 I3 I4 I5 I6 (all_oexk_in _) (all_bool_in _) (all_bool_in _)
-                (quiet_raise fire Hq _ _ _) (quiet_raise fire Hq _ _ _)
-                (quiet_raise fire Hq _ _ _) (quiet_raise fire Hq _ _ _)) as C.
-  unfold chk_sb, check_sb in C. rewrite Hadm in C. cbn [sc_ser] in C.
-  apply orb_true_iff in C. exact C.
+  destruct (scen_adm_parts _ _ Hadm) as (Hp & Ifn & Ise & _ & Hop).
+  pose proof (run_in fire sc Hq Hp (driver_prog DServerBase)) as I.
+  unfold verdict. rewrite (strip_run_strip _ _ (verdict_fn_strip DServerBase (sc_fn sc))).
+  rewrite (strip_run_strip _ _ (escape_shape_strip k)).
+  apply orb_true_iff.
+  assert (Ik : In k [KFault; KOther]).
+  { rewrite Hk in Ise. destruct Ise as [E|[E|[E|[]]]]; inversion E; [left | right; left]; reflexivity. }
+  pose proof sweep_paths_sb_true as S. unfold sweep_paths_sb in S.
+  rewrite forallb_forall in S; specialize (S _ Ifn).
+  rewrite forallb_forall in S; specialize (S _ Ik).
+  rewrite forallb_forall in S; specialize (S _ (all_bool_in (sc_after_on_fault sc))).
+  rewrite forallb_forall in S; specialize (S _ (all_bool_in (sc_doc_early sc))).
+  rewrite forallb_forall in S. apply S.
+  clear S. destruct sc as [rc cr de di ds fn se rd af dc op].
+  cbn [sc_opaque sc_fn sc_ser sc_after_on_fault sc_doc_early] in *. subst op se.
+  change (sc_flag {| sc_recon := rc; sc_create := cr; sc_decomp := de; sc_dispatch := di; sc_deser := ds;
+                     sc_fn := fn; sc_ser := Some k; sc_redirect := rd; sc_after_on_fault := af;
+                     sc_doc_early := dc; sc_opaque := false |}) with (flags_fn af dc) in I.
+  exact I.
 Qed.
 
 Theorem sb_unserialisable : forall sc parts w dms b k,
@@ -326,18 +280,60 @@ Definition sc_nul : scen :=
   {| sc_recon := None; sc_create := None; sc_decomp := None; sc_dispatch := None; sc_deser := None; sc_fn := None;
      sc_ser := Some KOther; sc_redirect := None; sc_after_on_fault := true; sc_doc_early := false;
      sc_opaque := false |}.
+(** two fire functions that raise alike give the same run up to which listeners were called *)
+Section Strip.
+  Variables f g : target -> ev -> bool -> list lid * option exk.
+  Variable sc : scen.
+  Hypothesis same : forall t e d, snd (f t e d) = snd (g t e d).
+
+  Lemma do_fire_strip : forall t e s, strip3 (do_fire f t e s) = strip3 (do_fire g t e s).
+  Proof.
+    intros t e s; unfold do_fire. specialize (same t e (negb (is_none (s_desc s)))).
+    destruct (f t e _) as [c1 r1], (g t e _) as [c2 r2]; simpl in *; subst; reflexivity.
+  Qed.
+  Lemma exec_strip : forall p s cur, strip3 (exec f sc p s cur) = strip3 (exec g sc p s cur).
+  Proof.
+    induction p; intros s cur; simpl; try reflexivity.
+    - specialize (IHp1 s cur).
+      destruct (exec f sc p1 s cur) as [[t1 s1] g1], (exec g sc p1 s cur) as [[t2 s2] g2].
+      simpl in IHp1. inversion IHp1; subst. destruct g2; try (simpl; congruence).
+      specialize (IHp2 s2 cur).
+      destruct (exec f sc p2 s2 cur) as [[t1' s1'] g1'], (exec g sc p2 s2 cur) as [[t2' s2'] g2'].
+      simpl in *. inversion IHp2; subst. rewrite !map_app. congruence.
+    - apply do_fire_strip.
+    - apply do_fire_strip.
+    - destruct (eval sc c s); auto.
+    - specialize (IHp1 s cur).
+      destruct (exec f sc p1 s cur) as [[t1 s1] g1], (exec g sc p1 s cur) as [[t2 s2] g2].
+      simpl in IHp1. inversion IHp1; subst. destruct g2; try (simpl; congruence).
+      specialize (IHp2 s2 (Some k)).
+      destruct (exec f sc p2 s2 (Some k)) as [[t1' s1'] g1'], (exec g sc p2 s2 (Some k)) as [[t2' s2'] g2'].
+      simpl in *. inversion IHp2; subst. rewrite !map_app. congruence.
+    - destruct cur as [k|]; [destruct (isinst k c)|]; auto.
+    - specialize (IHp s None).
+      destruct (exec f sc p s None) as [[t1 s1] g1], (exec g sc p s None) as [[t2 s2] g2].
+      simpl in *. inversion IHp; subst. reflexivity.
+  Qed.
+  Lemma run_strip : forall p, strip_run (run f sc p) = strip_run (run g sc p).
+  Proof.
+    intro p. unfold run. pose proof (exec_strip p st0 None) as E.
+    destruct (exec f sc p st0 None) as [[t1 s1] g1], (exec g sc p st0 None) as [[t2 s2] g2].
+    simpl in *. inversion E; subst. reflexivity.
+  Qed.
+End Strip.
+
 Theorem sb_unserialisable_refuted :
   exists sc b, scen_adm true sc = true /\ quiet_beh b /\
     forall parts w dms, verdict DServerBase sc (run (fire_world parts w dms b) sc (driver_prog DServerBase)) = false.
 Proof.
   exists sc_nul, (fun _ _ => None). split; [reflexivity|]. split; [intros h e k H; discriminate|].
   intros parts w dms.
-  assert (Q : quiet (fire_world parts w dms (fun _ _ => None)))
-    by (apply quiet_world; intros h e k H; discriminate).
-  rewrite (run_strip (verdict DServerBase sc_nul) _ _ sc_nul _ (verdict_strip _ _)
-             (quiet_table _ _ Q (drivers_sites_ok DServerBase))).
-  assert (N : forall t e d, snd (fire_world parts w dms (fun _ _ => None) t e d) = None).
-  { intros t e d. destruct (snd (fire_world parts w dms (fun _ _ => None) t e d)) eqn:E; [|reflexivity].
+  assert (N : forall t e d, snd (fire_world parts w dms (fun _ _ => None) t e d)
+                            = snd (tabfire None None None None t e d)).
+  { intros t e d. transitivity (@None exk); [|destruct t, e, d; reflexivity].
+    destruct (snd (fire_world parts w dms (fun _ _ => None) t e d)) eqn:E; [|reflexivity].
     destruct (fire_world_raises _ _ _ _ _ _ _ _ E) as (h & Hh). discriminate. }
-  rewrite !N. vm_compute. reflexivity.
+  unfold verdict. rewrite (strip_run_strip _ _ (verdict_fn_strip DServerBase (sc_fn sc_nul))).
+  rewrite (run_strip _ _ sc_nul N (driver_prog DServerBase)).
+  vm_compute. reflexivity.
 Qed.
